@@ -281,14 +281,19 @@ def visit_order(d, out):
 # generator: c40's typed generator with leaves that refer to columns
 
 class Gen17(P40.Gen):
-  def __init__(self, rng, kind, ill_typed=0.05, raw_rate=0.0, cols=None):
+  def __init__(self, rng, kind, ill_typed=0.05, raw_rate=0.0, cols=None, attr_cols=None):
     P40.Gen.__init__(self, rng, ill_typed=ill_typed, raw_rate=raw_rate)
     self.kind = kind
     self.cols = cols or COLS
+    self.attr_cols = attr_cols
 
   def ref(self):
     rng = self.rng
     COLS = self.cols
+    if self.attr_cols and rng.random() < 0.4:
+      # user.<Attr>.<column of the attribute's lookup table>
+      a = rng.choice(sorted(self.attr_cols))
+      return ("attr", ("attr", ("name", "user"), a), rng.choice(self.attr_cols[a]))
     col = rng.choice(COLS)
     r = rng.random()
     if r < 0.22: return ("dollar", col)
@@ -353,8 +358,8 @@ def gen_renames(rng):
   return {k: v for k, v in out.items() if k[1] != v}
 
 
-def make_case(rng, kind, depth, trivia, raw_rate=0.0, cols=None):
-  g = Gen17(rng, kind, ill_typed=rng.choice([0.0, 0.05]), raw_rate=raw_rate, cols=cols)
+def make_case(rng, kind, depth, trivia, raw_rate=0.0, cols=None, attr_cols=None):
+  g = Gen17(rng, kind, ill_typed=rng.choice([0.0, 0.05]), raw_rate=raw_rate, cols=cols, attr_cols=attr_cols)
   node = g.expr(rng.choice(["bool", "bool", "any"]), depth)
   if raw_rate and not g.raw_used:
     node = ("bool", "And", [node, g.raw(2)])
@@ -834,10 +839,10 @@ SIG_FIELD_DC = "dropdown condition stored in a view field's widgetOptions is not
 SIG_ENGINE_UNPARSABLE = "unparsable dropdown condition makes every column rename fail with SyntaxError"
 
 
-def valid_formula(rng, kind, depth, cols=None):
+def valid_formula(rng, kind, depth, cols=None, attr_cols=None):
   """a generated formula (lexemes) that parse_predicate_formula accepts"""
   for _ in range(50):
-    c = make_case(rng, kind, depth, rng.choice([0, 1, 2]), cols=cols)
+    c = make_case(rng, kind, depth, rng.choice([0, 1, 2]), cols=cols, attr_cols=attr_cols)
     if real_parse(print_lex(c.lex, "O"))[0] == "ok" and "\r" not in print_lex(c.lex, "O"):
       return c.lex
   return [["d", "A"], ["o", " == 1"]]
@@ -862,13 +867,18 @@ def gen_history(rng):
   setup.append([["AddRecord", "_grist_ACLResources", -1, {"tableId": "*", "colIds": "*"}]])
   forms.append({"where": "resource", "n": len(setup) - 1})
   star = len(setup) - 1
-  for name, t in (("School", "T2"), ("Other", "T3")):
+  def add_attr(name, t):
     lc = rng.choice(tables[t])
     attrs[name] = t
     setup.append([["AddRecord", "_grist_ACLRules", None,
                    {"resource": ("ret", star),
                     "userAttributes": json.dumps({"name": name, "tableId": t, "lookupColId": lc, "charId": "Email"})}]])
     forms.append({"where": "userattr", "n": len(setup) - 1})
+  # a user attribute may be defined before or after (= with a higher rule id than) the rules using it
+  late = [(name, t) for name, t in (("School", "T2"), ("Other", "T3")) if rng.random() < 0.5]
+  for name, t in (("School", "T2"), ("Other", "T3")):
+    if (name, t) not in late:
+      add_attr(name, t)
   # resources + rules
   for t in TABLES:
     k = rng.randint(1, 3)
@@ -877,10 +887,13 @@ def gen_history(rng):
     forms.append({"where": "resource", "n": len(setup) - 1})
     res = len(setup) - 1
     for _ in range(rng.randint(1, 2)):
-      lex = valid_formula(rng, "acl", rng.choice([1, 2, 3]), cols=tables[t] + rng.sample(tables["T2"] + tables["T3"], 2))
+      lex = valid_formula(rng, "acl", rng.choice([1, 2, 3]), cols=tables[t] + rng.sample(tables["T2"] + tables["T3"], 2),
+                          attr_cols={"School": tables["T2"], "Other": tables["T3"]} if rng.random() < 0.6 else None)
       setup.append([["AddRecord", "_grist_ACLRules", None,
                      {"resource": ("ret", res), "aclFormula": print_lex(lex, "O"), "permissionsText": "none"}]])
       forms.append({"where": "acl", "n": len(setup) - 1, "lex": lex})
+  for name, t in late:
+    add_attr(name, t)
   # dropdown conditions
   for t, c, ty in refs:
     if rng.random() < 0.85:
@@ -909,7 +922,7 @@ def gen_history(rng):
   steps = []
   for _ in range(rng.randint(8, 14)):
     r = rng.random()
-    t = rng.choice(TABLES)
+    t = rng.choice(TABLES + ["T2", "T3"])     # the user attributes' lookup tables a little more often
     if r < 0.5:
       steps.append(("RenameColumn", t, rng.random(), rng.choice(ENG_NEW)))
     elif r < 0.62:
